@@ -122,6 +122,9 @@ def tag_value(rng, ty):
     if ty == "A":
         return rng.choice(list("PSI!~a0:"))
     if ty == "Z":
+        if rng.random() < 0.12:
+            # a value that contains what looks like another field's TAG:TYPE: prefix (ds / cg / tp are treated specially by the parser)
+            return rng.choice(["", "read", "pool_of_rea", "minimap2 ", "x"]) + rng.choice(["ds", "cg", "tp", "NM", "sn"]) + ":" + rng.choice("ZZAi") + ":" + rng.choice(["", "batch1", "7", "P", "5=", " field removed"])
         return rng.choice(["", "foo", "foo_bar baz", "a:b", "x#y.z-w", "*", "/path/to", "with space", "=ACG*at", "12=", "q:Z:r",
                            "cov=100%", "%d/%s", "100%% sure", "{0}", "\\t"])
     if ty == "H":
